@@ -770,7 +770,11 @@ func (g *generator) enter() {
 	g.storeLengths()
 }
 
-func (g *generator) enterNextFinallyFrame() (canContinue bool) {
+// enterNextFinallyFrame unwinds the generator's try frames for a pending return(v) up to the next finally block.
+// If closing an iterator throws and no handler of the generator catches that exception, it is returned (the try
+// frames and the extra call frame of this activation are already unwound by handleThrow then): vm.throw() must not
+// be used here, because this is called outside the run() loop.
+func (g *generator) enterNextFinallyFrame() (canContinue bool, uncaught *Exception) {
 	vm := g.vm
 	callStackLen := len(vm.callStack)
 
@@ -781,8 +785,10 @@ func (g *generator) enterNextFinallyFrame() (canContinue bool) {
 		}
 		ex := vm.restoreStacks(tf.iterLen, tf.refLen)
 		if ex != nil {
-			vm.throw(ex)
-			return true
+			if ex = vm.handleThrow(ex); ex != nil {
+				return false, ex
+			}
+			return true, nil
 		}
 		// restoreStacks runs iterator return() methods, which push try frames and may reallocate vm.tryStack
 		tf = &vm.tryStack[len(vm.tryStack)-1]
@@ -794,7 +800,7 @@ func (g *generator) enterNextFinallyFrame() (canContinue bool) {
 			tf.catchPos = -1
 			tf.finallyPos = -1
 			tf.finallyRet = -2 // -1 would cause it to continue after leaveFinally
-			return true
+			return true, nil
 		}
 		vm.popTryFrame()
 	}
@@ -860,18 +866,23 @@ func (g *generator) step1() (res Value, resultType resultType, ex *Exception) {
 			}
 
 			if vm.prg != nil && vm.pc == -2 { // normal exit from finally
-				if g.enterNextFinallyFrame() {
+				if canContinue, ex1 := g.enterNextFinallyFrame(); ex1 != nil {
+					ex = ex1
+					return
+				} else if canContinue {
 					continue
 				}
 
 				// All finally blocks have exited without result
 				res, g.returning = g.returning, nil
 				ex = vm.restoreStacks(g.iterStackLen, g.refStackLen)
-				if ex != nil {
-					return
-				}
+				// unwind the activation also when closing an iterator threw: the callers pop the marker frame and
+				// the saved context next
 				vm.sp = vm.sb - 1
 				vm.callStack = vm.callStack[:len(vm.callStack)-1]
+				if ex != nil {
+					res = nil
+				}
 
 				return
 			}
@@ -1103,22 +1114,33 @@ func (g *generatorObject) _return(v Value) Value {
 	g.gen.returning = v
 	g.state = genStateExecuting
 	g.gen.enterNext()
-	canContinue := g.gen.enterNextFinallyFrame()
+	canContinue, uncaught := g.gen.enterNextFinallyFrame()
+	if uncaught != nil {
+		// closing an iterator threw and the generator has no handler for it: handleThrow stopped at the marker
+		// frame pushed by enterNext() and unwound the extra call frame, as in generator.nextThrow()
+		vm := g.gen.vm
+		g.gen.returning = nil
+		vm.popTryFrame()
+		vm.popCtx()
+		return g.step(nil, resultNormal, uncaught)
+	}
 	if !canContinue {
 		vm := g.gen.vm
 		g.state = genStateCompleted
+		g.gen.returning = nil
 
 		vm.popTryFrame()
 
 		ex := vm.restoreStacks(g.gen.iterStackLen, g.gen.refStackLen)
 
-		if ex != nil {
-			panic(ex)
-		}
-
+		// leave the activation before reporting an exception thrown by an iterator's return()
 		vm.callStack = vm.callStack[:len(vm.callStack)-1]
 		vm.sp = vm.sb - 1
 		vm.popCtx()
+
+		if ex != nil {
+			panic(ex)
+		}
 
 		return g.val.runtime.createIterResultObject(v, true)
 	}
